@@ -276,6 +276,11 @@ func (s *Service) Handle(ctx context.Context, stream p2p.Stream, remoteMultiaddr
 	}
 	s.metrics.AckRx.Inc()
 
+	// the address sub-message is optional on the wire: a peer may leave it out
+	if ack.Address == nil {
+		return nil, ErrInvalidAck
+	}
+
 	if ack.NetworkID != s.networkID {
 		return nil, ErrNetworkIDIncompatible
 	}
